@@ -265,6 +265,121 @@ theorem C17_open_then_stat (g : Graph α) (D : Nat) (p : α) :
     | cycle => rfl
     | depth => rfl
 
+/-! ### the final view under a file requirer -/
+
+/-- the nodes a required symlink needs within the budget are exactly the ones `markFrom` marks -/
+theorem markFrom_covers (g : Graph α) : ∀ (D : Nat) (r : α) (k : Nat) (q : α),
+    chain g k r = some q → 1 ≤ k → k ≤ D → g q ≠ none → q ∈ markFrom g D r := by
+  intro D
+  induction D with
+  | zero => intro r k q _ h1 h2; omega
+  | succ d ih =>
+    intro r k q hc h1 h2 hq
+    cases k with
+    | zero => omega
+    | succ k =>
+      simp only [chain] at hc
+      unfold markFrom
+      cases hg : g r with
+      | none => simp [hg] at hc
+      | some x =>
+        cases x with
+        | term kd => simp [hg] at hc
+        | link t =>
+          simp only [hg] at hc ⊢
+          cases k with
+          | zero =>
+            simp only [chain, Option.some.injEq] at hc
+            subst hc
+            cases hgt : g t with
+            | none => exact (hq hgt).elim
+            | some y => simp
+          | succ k =>
+            have hts : (g t).isSome = true := by
+              apply chain_target_some g (k+1) t q hc
+              cases hgq : g q with
+              | none => exact (hq hgq).elim
+              | some _ => rfl
+            cases hgt : g t with
+            | none => simp [hgt] at hts
+            | some y =>
+              simp only [List.mem_cons]
+              exact Or.inr (ih t (k+1) q hc (by omega) (by omega) hq)
+
+/-- A REQUIRED symlink survives the pruning of the final view with everything it needs: `Stat` of it in the
+pruned view still meets the sentence read on the UNPRUNED view — the first non-symlink target within the
+budget, not-found, or a cycle/depth error — whatever else the requirer lets go. -/
+theorem C17_required_link_survives (g : Graph α) (nodes : List α) (req : α → Bool) (D : Nat) (r : α)
+    (hr : req r = true) (hrn : r ∈ nodes) :
+    allowed g (specWalk g D r) (stat (pruned g nodes req D) D r) = true := by
+  -- every node within D hops of r is kept as it is
+  have kept : ∀ k q, k ≤ D → chain g k r = some q → pruned g nodes req D q = g q := by
+    intro k q hk hc
+    unfold pruned
+    cases hgq : g q with
+    | none => rfl
+    | some x =>
+      cases x with
+      | term kd => cases kd <;> simp only []
+                   -- a regular file: required itself (k = 0) or marked
+                   cases k with
+                   | zero => simp only [chain, Option.some.injEq] at hc; subst hc; simp [hr]
+                   | succ k =>
+                     have hm := markFrom_covers g D r (k+1) q hc (by omega) hk (by simp [hgq])
+                     have : nodes.any (fun r' => req r' && (markFrom g D r').contains q) = true := by
+                       rw [List.any_eq_true]; exact ⟨r, hrn, by simp [hr, hm]⟩
+                     rw [this]; simp
+      | link t =>
+        simp only []
+        cases k with
+        | zero => simp only [chain, Option.some.injEq] at hc; subst hc; simp [hr]
+        | succ k =>
+          have hm := markFrom_covers g D r (k+1) q hc (by omega) hk (by simp [hgq])
+          have : nodes.any (fun r' => req r' && (markFrom g D r').contains q) = true := by
+            rw [List.any_eq_true]; exact ⟨r, hrn, by simp [hr, hm]⟩
+          rw [this]; simp
+  -- hence the specification's walk reads the same verdict on both graphs
+  have walk : ∀ b p, (∀ k q, k ≤ b → chain g k p = some q → pruned g nodes req D q = g q) →
+      specWalk (pruned g nodes req D) b p = specWalk g b p := by
+    intro b
+    induction b with
+    | zero =>
+      intro p h
+      have h0 := h 0 p (Nat.le_refl _) rfl
+      unfold specWalk
+      rw [h0]
+    | succ b ih =>
+      intro p h
+      have h0 := h 0 p (Nat.zero_le _) rfl
+      unfold specWalk
+      rw [h0]
+      cases hg : g p with
+      | none => rfl
+      | some x =>
+        cases x with
+        | term kd => cases kd <;> rfl
+        | link t =>
+          simp only []
+          apply ih t
+          intro k q hk hc
+          exact h (k+1) q (by omega) (by simp [chain, hg, hc])
+  have hspec := walk D r kept
+  have hmeets := C17_stat_meets_spec (pruned g nodes req D) D r
+  rw [hspec] at hmeets
+  -- transfer `allowed` from the pruned graph to the original one
+  cases hv : specWalk g D r with
+  | mustOk n =>
+    rw [hv] at hmeets
+    obtain ⟨k, hk, hc, _⟩ := specWalk_mustOk g D r n hv
+    have hn := kept k n hk hc
+    cases hs : stat (pruned g nodes req D) D r <;> simp only [hs, allowed, hn] at hmeets ⊢ <;> exact hmeets
+  | mustNotExist =>
+    rw [hv] at hmeets
+    cases hs : stat (pruned g nodes req D) D r <;> simp only [hs, allowed] at hmeets ⊢ <;> exact hmeets
+  | cycleOrDepth =>
+    rw [hv] at hmeets
+    cases hs : stat (pruned g nodes req D) D r <;> simp only [hs, allowed] at hmeets ⊢ <;> exact hmeets
+
 /-! ### load time -/
 
 /-- A symlink whose target would leave the image root gets no node (the entry is skipped), so it can
